@@ -768,7 +768,7 @@ fn c11_oracle_inner(case: &Case, fails: &mut Vec<(String, Option<&'static str>)>
     }
     // data pass-through: every record carries exactly the data of the entry with its marker
     for (_, _, c) in &neutral {
-        let i = (marker(c) - MARK) as usize;
+        let i = marker(c).checked_sub(MARK).map(|i| i as usize).unwrap_or(usize::MAX);
         if i >= case.entries.len() || case.entries[i].1 != *c {
             fails.push(("coverage data of a retained file was changed".into(), None));
         }
@@ -862,7 +862,10 @@ fn c11_oracle_inner(case: &Case, fails: &mut Vec<(String, Option<&'static str>)>
         if let Some(pd) = &cfg.pd {
             let pn = spec_normalize(pd);
             for (_, rel, c) in &neutral {
-                let key = case.entries[(marker(c) - MARK) as usize].0.replace('\\', "/");
+                let Some(entry) = marker(c).checked_sub(MARK).and_then(|i| case.entries.get(i as usize)) else {
+                    continue; // already reported: the record carries no input's data
+                };
+                let key = entry.0.replace('\\', "/");
                 if let (Some(pn), false) = (&pn, pd.contains("..")) {
                     // the key lies lexically under the prefix when its leading segments (empty and
                     // "." ones skipped) are those of the prefix
